@@ -8,6 +8,9 @@ Property theorems only; helper lemmas are in `Lemmas/Dgram.lean`, `Lemmas/DgramC
 import SshuttleModel.Spec.Dgram
 import SshuttleModel.Lemmas.DgramClient
 import SshuttleModel.Lemmas.DgramServer
+import SshuttleModel.Lemmas.DgramLife
+import SshuttleModel.Lemmas.DgramAssoc
+import SshuttleModel.Lemmas.DgramE2E
 import SshuttleModel.Lemmas.DgramPins
 
 namespace Sshuttle.Dgram
@@ -248,6 +251,44 @@ theorem C10_one_live_socket (cfg : Cfg) (now hid chan : Nat) (request : Bytes) (
       · have hc' : cfg.netErrs.contains e = false := by simpa using hc
         simp only [hc', Bool.false_eq_true, if_false, hs, List.erase_cons_head, List.length_nil, Nat.zero_le]
 
+/-- **At most three attempts per QUERY, over its whole life, for all interleavings.**  From the
+moment DNS_REQ reaches the server, through any sequence of events on the query's resolver
+sockets — replies, receive errors of any errno (each re-entering `try_send` with whatever
+name-server picks and `connect`/`send` outcomes the script dictates), duplicates on retired
+sockets — and end-of-round sweeps, in any order:
+* the sockets ever created for the query, hence the datagrams ever handed to a resolver, number
+  at most `DNS_MAX_TRIES` (the budget is per query, not per call of `try_send`);
+* every one of those datagrams is the query as captured, on the query's id;
+* at most one DNS_RESPONSE is ever queued for it, on its own id, and the reply it carries
+  arrived on one of the (at most three) sockets created for this query. -/
+theorem C10_attempts_per_query (cfg : Cfg) (now hid chan : Nat) (request : Bytes) (ns : Nat) (sc : Script)
+    (evs : List LifeEv) :
+    let l := (Life.start cfg now hid chan request ns sc).run cfg evs
+    l.attempts ≤ cfg.maxTries ∧ l.sends.length ≤ cfg.maxTries ∧
+    (∀ s ∈ l.sends, s.data = request ∧ s.chan = chan ∧ ns ≤ s.sock ∧ s.sock < ns + cfg.maxTries) ∧
+    l.frames.length ≤ 1 ∧ (∀ f ∈ l.frames, f.chan = chan ∧ f.cmd = CMD_DNS_RESPONSE) ∧
+    l.replySocks.length = l.frames.length ∧ (∀ k ∈ l.replySocks, ns ≤ k ∧ k < ns + cfg.maxTries) := by
+  intro l
+  have h : LInv cfg ns chan request l := (LInv.start cfg now hid chan request ns sc).run evs
+  have h1 := h.attempts
+  have h2 := h.tries_le
+  have h3 := h.sends_le
+  exact ⟨by show _ ≤ _; omega, by show _ ≤ _; rw [h1] at h3; exact Nat.le_trans h3 h2, h.sends_ok, h.frames_le, h.frames_ok,
+    h.replies.1, h.replies.2⟩
+
+/-- The regenerated bound is three. -/
+example : ({} : Cfg).maxTries = 3 := by decide
+
+/-- Non-vacuity: send error, then a receive error on the second socket, then a third attempt
+whose reply is relayed, then a duplicate reply and a late error — three sockets, one frame. -/
+example :
+    let cfg : Cfg := { nslist := [[49]], connectInTry := true }
+    let evs : List LifeEv := [.sock 1 (.err 111) ⟨[], [none, none]⟩, .sock 2 (.data ⟨[49], 53, []⟩ [7]) {},
+                              .sock 2 (.data ⟨[49], 53, []⟩ [7]) {}, .sweep true, .sock 1 (.err 104) {}]
+    let l := (Life.start cfg 0 0 5 [1, 2] 0 ⟨[], [none, some 111, none, none]⟩).run cfg evs
+    l.attempts = 3 ∧ l.sends.length = 2 ∧ l.frames = [⟨5, CMD_DNS_RESPONSE, [7]⟩] ∧ l.replySocks = [2] := by
+  decide
+
 /-! ## 4. Release -/
 
 /-- **Released when answered.** After the first frame on a query's id has been handled, the id
@@ -293,11 +334,83 @@ theorem C10_capture_sweeps {cfg : Cfg} {now : Nat} {cap : Capture} {c c' : Clien
   · exact absurd e hne
   · exact ⟨c1, closes, he, e7, chan, e6⟩
 
+/-- **One clock.** The deadline of a query is written from the clock reading `now` its capture
+saw (`now + 30 s`), survives that capture's own sweep, and every later sweep compares it with
+the reading it is given: the entry stays while that reading is not beyond the deadline and no
+entry older than the reading is left.  In the Python all readings come from the same call
+(pinned below), so a stamp is never compared in another clock's domain. -/
+theorem C10_one_clock {cfg : Cfg} {now : Nat} {cap : Capture} {c c' : Client} {fr : List Frame}
+    (h : ondns cfg now cap c = .ok (c', fr)) (hfr : fr ≠ []) :
+    ∃ chan, lookup chan c'.dnsreqs = some (now + cfg.dnsHorizonS * cfg.ticksPerS) ∧
+      ∀ now' c'' fr', expire now' c' = .ok (c'', fr') →
+        (now' ≤ now + cfg.dnsHorizonS * cfg.ticksPerS →
+          lookup chan c''.dnsreqs = some (now + cfg.dnsHorizonS * cfg.ticksPerS)) ∧
+        (∀ p ∈ c''.dnsreqs, ¬ p.2 < now') := by
+  rcases ondns_ok h with ⟨_, _, _, _, e⟩ | ⟨chan, _, _, closes, c1, _, _, _, _, _, e6, _, he, _⟩
+  · exact absurd e hfr
+  · obtain ⟨_, _, _, e4, _⟩ := expire_ok he
+    have hl : lookup chan c'.dnsreqs = some (now + cfg.dnsHorizonS * cfg.ticksPerS) := by
+      rw [e4, e6]; exact lookup_filter _ (lookup_set_self _ _ _) (by simp)
+    refine ⟨chan, hl, ?_⟩
+    intro now' c'' fr' he'
+    obtain ⟨_, _, _, e4', _⟩ := expire_ok he'
+    refine ⟨fun hle => by rw [e4']; exact lookup_filter _ hl (by simp; omega), ?_⟩
+    intro p hp
+    rw [e4'] at hp
+    simpa using (List.mem_filter.1 hp).2
+
+/-- Pin: every deadline is written and compared with the same clock call. -/
+example : Gen.C10.CLOCK_READS =
+    ["client.onaccept_tcp:time.time", "client.onaccept_udp:time.time", "client.ondns:time.time",
+     "server.DnsProxy.__init__:time.time", "server.UdpProxy.__init__:time.time", "server.main:time.time"] := by
+  decide
+
 /-! ## 5. End to end, and where the full statement fails -/
 
 /-- Full statement: in every run of both ends, each datagram an asker receives is a resolver's
 reply to its own query. -/
 def C10_full : Prop := ∀ (cfg : Cfg) (ops : List Op), AnswersOwnQuery (Sys.run { cfg := cfg } ops)
+
+/-- **A reply goes to its asker, end to end (no id reassigned).**  For every configuration and
+every honest DNS run of both ends joined by the tunnel — captures, other accepts, sweeps, ids
+taken by other flows, clock advances, server rounds reading any number of frames, resolver
+replies and receive errors on any socket with any script of outcomes, frames delivered to the
+client, in any order — in which no id is given to two queries: every datagram sent to a local
+socket for a query goes to the address that asked it, from the original destination the method
+reported (`ToTheAsker`), and it is, unchanged, a datagram the server read from a resolver socket
+of the handler created for *that* query's own request bytes on that query's id
+(`AnswersOwnQuery`).  `C10_full_false` below shows the hypothesis cannot be dropped. -/
+theorem C10_reply_goes_to_its_asker (cfg : Cfg) (ops : List Op) (hon : ∀ op ∈ ops, op.dnsHonest = true)
+    (hnoreuse : ((Sys.run { cfg := cfg } ops).cl.queries.map (·.chan)).Nodup) :
+    AnswersOwnQuery (Sys.run { cfg := cfg } ops) ∧ ToTheAsker (Sys.run { cfg := cfg } ops).cl := by
+  have hinv : ∀ (ops : List Op) (s : Sys), EInv s → (∀ op ∈ ops, op.dnsHonest = true) → EInv (Sys.run s ops) := by
+    intro ops
+    induction ops with
+    | nil => intro s h _; exact h
+    | cons op ops ih =>
+      intro s h hh
+      exact ih (s.step op) (h.step op (hh op (by simp))) (fun o ho => hh o (List.mem_cons_of_mem _ ho))
+  have h := hinv ops _ (EInv.init cfg) hon
+  refine ⟨?_, h.cinv.em_rec⟩
+  intro q e hm
+  obtain ⟨qu, hq, h1, rp, hr, h2, h3⟩ := h.emitted q e hm
+  obtain ⟨qu', hq', h4, h5⟩ := h.srv.replies rp hr
+  have : qu' = qu := nodup_map_inj (·.chan) hnoreuse hq' hq (by rw [h4, h2])
+  subst this
+  exact ⟨qu', hq, h1, rp, hr, h2, h5.symm, h3⟩
+
+/-- Non-vacuity: two queries, answered in the opposite order, one retry; ids 1 and 2 are distinct. -/
+example :
+    let cfg : Cfg := { method := .tproxy, nslist := [[49]], connectInTry := true }
+    let cap (p b : Nat) : Capture := ⟨2, ⟨[49], p, []⟩, some ⟨[57], 53, []⟩, [b]⟩
+    let ops : List Op := [.client (.dns (cap 4000 0xaa)), .client (.dns (cap 4001 0xbb)),
+      .sround 2 ⟨[], [some 111, none, none]⟩, .ssock 2 (.data ⟨[49], 53, []⟩ [0xb1]) {}, .tick 5,
+      .ssock 1 (.data ⟨[49], 53, []⟩ [0xa1]) {}, .cdeliver, .cdeliver]
+    (∀ op ∈ ops, op.dnsHonest = true) ∧
+    ((Sys.run { cfg := cfg } ops).cl.queries.map (·.chan)).Nodup ∧
+    (Sys.run { cfg := cfg } ops).cl.emitted.map (fun p => (p.1, p.2.to.port, p.2.data)) =
+      [(some 1, 4001, [0xb1]), (some 0, 4000, [0xa1])] := by
+  decide
 
 def f19Cfg : Cfg := { method := .tproxy, maxCh := 2, nslist := [[49]] }
 
